@@ -889,8 +889,14 @@ func (s *clientSocket) onClose(reason Reason) {
 	s.debug.Log("Going to close the socket. Reason", reason)
 
 	s.stateMu.Lock()
+	alreadyDisconnected := s.state == clientSocketConnStateDisconnected
 	s.state = clientSocketConnStateDisconnected
 	s.stateMu.Unlock()
+	if alreadyDisconnected {
+		// The disconnection has already been reported. This happens for example
+		// when the manager is closed after the connection was lost.
+		return
+	}
 	s.setID("")
 	s.disconnectHandlers.forEach(func(handler *ClientSocketDisconnectFunc) { (*handler)(reason) }, true)
 }
